@@ -263,6 +263,8 @@ func checkC06(c *Ctx, r *Report) {
 
 	// requiredness
 	checkRequiredness(c, r, "C06.f")
+	// C06.d one body at most reaches the emitters (shared with C10.b)
+	checkOneBodyPerRoute(c, r, "C06.d")
 	checkIsContextExact(c, r, "C06.a")
 
 	// helpers whose meaning the rules above take for granted
